@@ -8,6 +8,7 @@ use dashu_int::IBig;
 
 use crate::{
     error::{assert_finite, assert_limited_precision, panic_log_nonpositive},
+    exp::never_exact,
     fbig::FBig,
     repr::{Context, Repr, Word},
     round::{Round, Rounded},
@@ -326,7 +327,7 @@ impl<R: Round> Context<R> {
         } else {
             2 * sum + s * work_context.ln2()
         };
-        result.with_precision(self.precision)
+        never_exact(result.with_precision(self.precision))
     }
 }
 
